@@ -102,9 +102,11 @@ func (g *SparseGraph) RemoveVertex(i int) {
 
 	for _, v := range g.Neighbourhoods[i] {
 		g.Neighbourhoods[v].Remove(i)
+		g.DegreeSequence[v]--
 	}
 
 	g.Neighbourhoods = g.Neighbourhoods[:i+copy(g.Neighbourhoods[i:], g.Neighbourhoods[i+1:])]
+	g.DegreeSequence = g.DegreeSequence[:i+copy(g.DegreeSequence[i:], g.DegreeSequence[i+1:])]
 
 	for j := range g.Neighbourhoods {
 		startIndex := sort.SearchInts(g.Neighbourhoods[j], i)
